@@ -120,8 +120,8 @@ def setup(concepts, spec):
     from .. import probes
     probes.install(['prime'])
     attach.attach_ctor(concepts)
-    attach.attach(concepts.contexts.PrimeMixin, 'intension', DerivationMonitor('o'))
-    attach.attach(concepts.contexts.PrimeMixin, 'extension', DerivationMonitor('p'))
+    attach.attach(concepts.Context, 'intension', DerivationMonitor('o'))
+    attach.attach(concepts.Context, 'extension', DerivationMonitor('p'))
     global POOL
     POOL = common.Pool(6)
 
